@@ -785,17 +785,34 @@ def vec_median(ex, st, v):
     hit = st.ghost.get(key)
     if hit is not None and hit[1] is v.at:
         return hit[0]
+    # two vector objects with the same element term and length (the column read twice) are the same vector
+    key2 = None
+    if True:
+        try:
+            k0 = z3.Const("canon!k", I)
+            e0 = v.at(k0)
+            if not isinstance(e0, NF) and is_z3(to_z3(e0)) and not _outer_binders([to_z3(e0), to_z3(v.n)]):
+                key2 = "mediank:%s|%s" % (z3.simplify(to_z3(e0)).sexpr(), to_z3(v.n).sexpr())
+                hit = ex.__dict__.setdefault("_median_canon", {}).get(key2)
+                if hit is not None:
+                    return hit
+        except Unsupported:
+            key2 = None
     m = fresh(R, "median")
     st.ghost = dict(st.ghost)
     st.ghost[key] = (m, v.at)
+    if key2 is not None:
+        ex.__dict__["_median_canon"][key2] = m      # (the term determines the values: valid on every path)
     # some element lies at or below it and some at or above it (a non-empty vector)
     a, b = fresh(I, "a"), fresh(I, "b")
     with binding(a, b):
         ea, eb = v.at(a), v.at(b)
     if not isinstance(ea, NF):
         n = to_z3(v.n)
-        st.assume(z3.Implies(n > 0, z3.Exists([a, b], z3.And(0 <= a, a < n, 0 <= b, b < n,
-                                                               to_real(ea) <= m, m <= to_real(eb)))))
+        bound = z3.Implies(n > 0, z3.Exists([a, b], z3.And(0 <= a, a < n, 0 <= b, b < n, to_real(ea) <= m, m <= to_real(eb))))
+        st.assume(bound)
+        if key2 is not None:
+            global_fact(ex, bound)
     return m
 
 
